@@ -128,6 +128,25 @@ func (fv *FuncVerifier) assumeFrame(st *State, targets []modTarget, ref *Sort, b
 	for _, c := range pf {
 		st.assume(c)
 	}
+	// ground instances of the frame for the references held in variables: saves the
+	// solver from having to find them by quantifier instantiation
+	hn := heapName(ref)
+	var hints []string
+	seenHint := map[string]bool{}
+	for _, v := range st.vars {
+		if v.Sort != nil && v.Sort.Kind == KRef && heapName(v.Sort) == hn && !seenHint[v.S] && len(v.S) < 200 {
+			seenHint[v.S] = true
+			hints = append(hints, v.S)
+		}
+	}
+	sort.Strings(hints)
+	if len(hints) > 12 {
+		hints = hints[:12]
+	}
+	for _, h := range hints {
+		gi, _ := fv.frameConjuncts(targets, ref, before, after, h, alloc)
+		st.assume(gi)
+	}
 }
 
 // frameGoal: the proof obligation for a Skolem reference x.
